@@ -143,6 +143,19 @@ def oracle(rec, x, Ts, model, hdd, cdd):
     Returns a list of (clause, detail)."""
     hb, bh, kh, cb, bc, kc, c = x
     fails = []
+    # "a straight line with the FITTED slope beyond each balance point": the slope the curve is evaluated with is the stored one
+    # unless the balance point sits on the end of the ABSOLUTE temperature range (where there is no "beyond" inside the data).
+    # Judged from the stored record alone, not from the implementation's own read-back of it.
+    co, tc_ = rec["coefficients"], rec["temperature_constraints"]
+    if co["model_type"] in ("hdd_tidd_cdd", "hdd_tidd_cdd_smooth"):
+        a, sa, b, sb = co["hdd_bp"], co["hdd_beta"], co["cdd_bp"], co["cdd_beta"]
+        if b < a:
+            a, sa, b, sb = b, sb, a, sa
+        if a != b:
+            if b < tc_["T_max"] and bc != sb:
+                fails.append(("fitted_cooling_slope_not_used", dict(cdd_bp=b, stored_slope=sb, slope_used=bc, T_max=tc_["T_max"], T_max_seg=tc_["T_max_seg"])))
+            if (a > tc_["T_min"] or b >= tc_["T_max"]) and bh != sa:
+                fails.append(("fitted_heating_slope_not_used", dict(hdd_bp=a, stored_slope=sa, slope_used=bh, T_min=tc_["T_min"], T_min_seg=tc_["T_min_seg"])))
     scale = max(1.0, abs(c), float(np.max(np.abs(model))))
     tol = 1e-9 * scale
     L = max(bh, bc)
